@@ -102,6 +102,7 @@ class Cache:
             self._subbuilds_lock = null_context
             self._created_dirs_lock = null_context
 
+        self._rebuilt_files = []
         self._norm_cased_files = {}
         for filename, operation in files.items():
             self._norm_cased_files[os.path.normcase(filename)] = operation
@@ -188,6 +189,17 @@ class Cache:
                 norm_cased_filename, filename)
             self._files[filename] = None
             self._norm_cased_files[norm_cased_filename] = None
+            self._rebuilt_files.append(filename)
+
+    def rebuilt_files(self):
+        """Return the files passed to ``start_building_file``.
+
+        This is a list of the non-norm-cased filenames of the files we
+        have started to build or rebuild, as opposed to reusing cached
+        results.
+        """
+        with self._files_lock:
+            return list(self._rebuilt_files)
 
     def finish_building_file(self, operation):
         """Record the result of building the specified file.
